@@ -16,4 +16,6 @@ def check(ctx, rep):
     gr.gr_7(ctx, rep)
     gr.gr_6(ctx, rep)
     gr.par_8(ctx, rep)
+    from ..rules import cache as _c1
+    _c1.cache_1(ctx, rep, grammar_only=True)      # a tree served from the cache was built by the grammar that is asked (first-level key = hash of its text)
     rep.note('Not decided: that the children of each created node are a sentence of the rule (C08 + run-time behaviour).')
